@@ -1,7 +1,8 @@
 #!/usr/bin/env python3
 """tlcq.py MODULE CFG [workers] -- run TLC once and print a summary (developer aid)."""
 import sys
-sys.path.insert(0, '/verif/lib')
+import os
+sys.path.insert(0, os.path.dirname(os.path.abspath(__file__)))
 import core
 r = core.tlc_mc(sys.argv[1], sys.argv[2], workers=int(sys.argv[3]) if len(sys.argv) > 3 else 8, allow_violation=True)
 out = r['out']
